@@ -358,7 +358,20 @@ func (e C12) execDec(p *C12Plan, c *core.Ctx) *core.Verdict {
 		src := seam.NewSource(img, sp.Delivery, nil, nil)
 		var viol *core.Verdict
 		maxAhead := 0
+		// streaming: whenever the reader asks the source for more, what it has already taken must not be
+		// more than about one chunk beyond what it has RELEASED so far (a Read that gathers several
+		// chunks before returning anything is not incremental)
+		releasedSoFar := 0
+		src.OnAsk = func(consumedBefore int) {
+			if !headerIntact || viol != nil {
+				return
+			}
+			if b := readAheadBound(releasedSoFar, l, len(img), armored, sp.Delivery.Bufio); consumedBefore > b {
+				viol = core.Fail("C12.dec.readahead", "the reader asks the source for more input after taking %d bytes while only %d plaintext bytes have been released (bound %d: about one chunk beyond the chunk being released; delivery %s, reads %+v)", consumedBefore, releasedSoFar, b, sp.Delivery, sp.Reads)
+			}
+		}
 		onRead := func(released int) {
+			releasedSoFar = released
 			if !headerIntact {
 				return
 			}
